@@ -69,8 +69,23 @@ Fixpoint keys_distinct (l : list value) : bool :=
   match l with [] => true | k :: l' => negb (is_null k) && negb (kmem_v k l') && keys_distinct l' end.
 Definition op_in_ref (o : op) : bool :=
   match o with OUpd C0 _ _ | OSave _ | ORollTo _ | ORelease _ => false | _ => true end.
+(* UPDATE / DELETE scans of the implementation do not skip tombstones (recorded under C05): a key
+   that some statement DELETEs must not be the target of any other UPDATE / DELETE of the schedule,
+   and every UPDATE / DELETE names its row by key, otherwise that defect -- not isolation -- decides
+   the outcome and the reference makes no demand *)
+Definition del_keys (steps : list (nat * op)) : list value :=
+  flat_map (fun p => match snd p with ODel (Some (C0, k)) => [k] | _ => [] end) steps.
+Definition upd_keys (steps : list (nat * op)) : list value :=
+  flat_map (fun p => match snd p with OUpd _ _ (Some (C0, k)) => [k] | _ => [] end) steps.
+Definition by_key (o : op) : bool :=
+  match o with
+  | OUpd _ _ (Some (C0, _)) | ODel (Some (C0, _)) => true
+  | OUpd _ _ _ | ODel _ => false
+  | _ => true
+  end.
 Definition spec_defined (sch : schema) (nh : nat) (steps : list (nat * op)) : bool :=
-  keys_distinct (ins_keys steps) && forallb (fun p => op_in_ref (snd p) && Nat.ltb (fst p) nh) steps.
+  keys_distinct (ins_keys steps) && forallb (fun p => op_in_ref (snd p) && by_key (snd p) && Nat.ltb (fst p) nh) steps
+  && keys_distinct (del_keys steps) && negb (existsb (fun k => kmem_v k (upd_keys steps)) (del_keys steps)).
 Definition spec_ok (c : case) : bool :=
   match c with
   | Sched sch nh steps obs => if spec_defined sch nh steps then si_agree steps obs (si_init nh) else true
